@@ -2,30 +2,43 @@
 from . import events_common as EC
 from .events_common import COQ_FILES, TRUSTED_BASE
 
-THEOREMS = ["C12_once_between_sub_and_unsub", "C12_sub_idempotent", "C12_unsub_by_value", "C12_broadcast_order",
+THEOREMS = ["C12_once_between_sub_and_unsub", "C12_once_between_sub_and_unsub_alive",
+            "C12_subscription_follows_the_actor", "C12_sub_idempotent", "C12_unsub_by_value", "C12_broadcast_order",
             "C12_pointer_keys_refuted", "C12_oracle_holds_of_model"]
-RULE = ("(seq) histories of Subscribe / Unsubscribe / BroadcastEvent on a real engine over PID values of live recording "
-        "actors, each value available through 2 distinct *PID objects with equal address and id (object 0 = the PID "
-        "Spawn returned); every step is made by the harness goroutine and followed by quiescence (event stream and all "
-        "actors idle with empty inboxes); exhaustive: all histories ending in an event of length <= 6 (thorough 7) over "
-        "{sub,unsub} x {object 0, object 1} of one PID + event, all of length <= 4 (thorough 6) over a 7-letter alphabet "
-        "with a second PID value; then random histories up to 25 steps over 3 PID values x 2 objects. Observation: per "
-        "actor the list of event numbers received. (conc) 1-4 broadcaster goroutines each broadcasting its own "
+RULE = ("(seq) histories of Subscribe / Unsubscribe / BroadcastEvent / stop / respawn on a real engine over PID values of "
+        "recording actors, each value available through 2 distinct *PID objects with equal address and id (object 0 = the "
+        "PID Spawn returned); 'stop' poisons the actor and waits, 'respawn' spawns a new recording actor under the same "
+        "id; with 'remote' the engine has an in-memory Remoter and the same ids are also used behind a foreign address "
+        "(what the Remoter is given is logged per foreign PID); every step is made by the harness goroutine and followed "
+        "by quiescence (event stream and all actors idle with empty inboxes). Exhaustive: all histories ending in an "
+        "event of length <= 5 (thorough 7) over {sub,unsub} x {object 0, object 1} of one PID + event; length <= 3 "
+        "(thorough 6) over a 7-letter alphabet with a second PID value; length <= 6 (thorough 8) over {sub, unsub through "
+        "the other object, stop-or-respawn, event} of one actor (thorough: also two actors); length <= 4 (thorough 6) over "
+        "{sub, unsub} x {(local, id), (foreign, id)} + event on an engine with a remote (thorough: also with a second id "
+        "and stop/respawn); then random histories up to 25 steps over 3 PID values and their foreign twins x 2 objects "
+        "with stops and respawns. Observation: per PID value the list of user event numbers received (engine events are "
+        "not logged). (conc) 1-4 broadcaster goroutines each broadcasting its own "
         "increasing numbers to 0-3 subscribers, one of them subscribing a late actor and one unsubscribing a leaver "
         "(through fresh *PID objects) between two of its own broadcasts; oracle: every full subscriber has each source's "
         "events exactly once and in order and all subscribers saw one serialisation; the late actor has a suffix (and all "
         "events its own source broadcast after the Subscribe call), the leaver a prefix (and exactly the events its source "
         "broadcast before the Unsubscribe call); correspondence: the machine run on the serialisation subscriber 0 saw "
         "reproduces every log. A case is non-trivial when the model replay reaches a proof-relevant situation "
-        "(second subscription through the same / another object, unsubscription through another object, ...); "
+        "(second subscription through the same / another object, unsubscription through another object, stop of a "
+        "subscribed actor, re-subscription of a respawned actor, local and foreign PID with one id, ...); "
         "distinct = distinct input")
 ASSUMPTIONS = [
     "the theorems are about Events.v, a hand transcription of eventStream.Receive (after fixes/D5.diff and "
     "fixes/D6.diff), Engine.send/SendLocal/BroadcastEvent/Subscribe/Unsubscribe and Context.Forward; the tie is "
     "differential execution on generated histories",
     "C12_once_between_sub_and_unsub is stated for an actor that is alive (local and registered) whenever the event "
-    "stream handles a message of the history; a subscriber that stopped is dropped at the first forward (D6 repair) "
-    "and that forward surfaces as a dead letter (C09)",
+    "stream handles an event between the actor's Sub and its next Unsub; C12_subscription_follows_the_actor drops "
+    "the premise: a subscriber that stopped is dropped by the first event that cannot be delivered (D6 repair; that "
+    "forward surfaces as a dead letter, C09) and an actor spawned again under the id is a subscriber only after a new "
+    "Subscribe; a PID on another node is handed to the remote while the engine has one",
+    "in the seq model the dead letters that come back from forwards to stopped subscribers are left out of the "
+    "history: they are handled right after the event that caused them, when every unreachable subscriber has "
+    "already been dropped (C09_dead_letter_exact), reach live subscribers only and are not logged by this family",
     "'broadcast after Subscribe in happens-before order' is read through the inbox: Subscribe, Unsubscribe and "
     "BroadcastEvent are pushes on the event stream's inbox, which C01 shows to be FIFO per sender and C02 to be "
     "handled one at a time; the theorems quantify over the resulting serialisation",
